@@ -165,6 +165,12 @@ func deviations() []deviation {
 	add("application-data record first", false, func(m []byte, _ map[byte][]byte, v uint16) [][]byte {
 		return [][]byte{raw(wire.Frame(v, 23, []byte("early data"))), m}
 	})
+	add("zero-length application-data record first", false, func(m []byte, _ map[byte][]byte, v uint16) [][]byte { return [][]byte{raw(wire.Frame(v, 23, nil)), m} })
+	add("zero-length ChangeCipherSpec record first", false, func(m []byte, _ map[byte][]byte, v uint16) [][]byte { return [][]byte{raw(wire.Frame(v, 20, nil)), m} })
+	add("zero-length alert record first", false, func(m []byte, _ map[byte][]byte, v uint16) [][]byte { return [][]byte{raw(wire.Frame(v, 21, nil)), m} })
+	add("three zero-length application-data records first", false, func(m []byte, _ map[byte][]byte, v uint16) [][]byte {
+		return [][]byte{raw(wire.Frame(v, 23, nil)), raw(wire.Frame(v, 23, nil)), raw(wire.Frame(v, 23, nil)), m}
+	})
 	add("fatal alert first", false, func(m []byte, _ map[byte][]byte, v uint16) [][]byte {
 		return [][]byte{raw(wire.Frame(v, 21, []byte{2, 40})), m}
 	})
